@@ -11,6 +11,6 @@ for P in "$@"; do
   VERIF_REPO=$WT ./check $P > $LOG 2>&1; rc=$?
   echo "$BID [$P]: exit=$rc $(grep -c '^VIOLATION' $LOG) violation lines; $(tail -1 $LOG | cut -c1-200)"
   grep -m3 -A1 '^VIOLATION' $LOG | cut -c1-300
+  git -C /verif checkout -- evidence/$P.json 2>/dev/null
 done
 git -C /repo worktree remove --force $WT
-git -C /verif checkout -- evidence 2>/dev/null
